@@ -385,10 +385,21 @@ func execute(c Case) (res worker.Result) {
 					onlyTemp = false
 				}
 			}
+			allDeleted := true
+			for _, ch := range rep.Changes {
+				if ch.Kind != "deleted" {
+					allDeleted = false
+				}
+			}
+			lexTitle := lexResolve(sb.wd, title)
 			key := ""
 			switch {
 			case onlyTemp:
 				key = "tempfile-outside-tmpdir"
+			case p.Title != "" && !lexInside(sb.wd, lexTitle) && strings.HasPrefix(lexTitle, sb.wd):
+				key = "sibling-with-workdir-name-prefix:" + p.Kind // containment decided by string prefix
+			case pushErr != nil && allDeleted && mech == "":
+				key = "failed-push-cleanup-deletes-outside" // e.g. empty ancestors of the working directory
 			case p.Kind == "blob" || p.Kind == "restore":
 				if mech != "" {
 					key = "named-blob-through-" + via + "-link:" + mech
